@@ -91,6 +91,11 @@ def match_tag(token, regex=match_tag_prefix_and_name):
         attrs.append(attr)
         d['suffix'] = token[m.end():]
 
+    if d['suffix'] is None:
+        # a tag that is not closed ("</div foo>" is "</div " followed by
+        # text): what follows the name belongs to the tag as written
+        d['suffix'] = token
+
     return d
 
 
